@@ -138,7 +138,8 @@ def arff_expected(cols, rows, sparse):
 
 
 def _canon(x):
-    if isinstance(x, Categorical): return ('cat', str(x), [str(l) for l in x.levels])
+    if isinstance(x, Categorical):     # everything a categorical cell carries: value, ordered levels, as_int, as_onehot
+        return ('cat', str(x), [str(l) for l in x.levels], getattr(x, 'as_int', None), tuple(getattr(x, 'as_onehot', None) or ()))
     return x
 
 
@@ -159,7 +160,9 @@ def _veq(exp, got, sparse):
     if isinstance(exp, float): return isinstance(got, (int, float)) and not isinstance(got, bool) and got == exp
     if isinstance(exp, tuple):
         if not (isinstance(got, tuple) and got[1] == exp[1]): return False
-        return got[2] == exp[2] or (sparse and got[2] == ['0'] + exp[2])     # documented extra '0' level of sparse nominals
+        if not (got[2] == exp[2] or (sparse and got[2] == ['0'] + exp[2])): return False     # documented extra '0' level of sparse nominals
+        i = got[2].index(got[1])            # the level list IN ORDER is the declaration's, so index / one-hot must follow from it
+        return got[3] == i and got[4] == tuple(int(j == i) for j in range(len(got[2])))
     return isinstance(got, str) and got == exp
 
 
@@ -175,7 +178,10 @@ def _cell_mode(exp, got):
     g = got[1] if isinstance(got, tuple) else got
     if isinstance(e, str) and isinstance(g, str):
         if g == e:
-            return 'nominal levels differ'
+            lv = exp[2] if isinstance(exp, tuple) else None
+            if isinstance(got, tuple) and lv is not None and got[2] not in (lv, ['0'] + lv):
+                return 'nominal levels differ (same level set, other order)' if set(got[2]) - {'0'} == set(lv) - {'0'} else 'nominal levels differ'
+            return 'nominal as_int/as_onehot do not match the level list'
         if '\\' in e and g == e.replace('\\', ''): return 'backslash dropped from value'
         if len(g) >= 2 and g[0] in '\'"' and g[-1] == g[0]: return 'quotes/escapes kept in value'
         if '\\' in g and '\\' not in e: return 'quotes/escapes kept in value'
